@@ -1,5 +1,6 @@
 """C14 -- conditional configuration applies exactly as the config language defines.
-Model: coq/Cond/*.v ; harness: harness/cond_h.c (configfile-glue.c of the working tree on hand-built condition trees)."""
+Model: coq/Cond/*.v ; harness: harness/cond_h.c (configfile-glue.c of the working tree on hand-built condition trees);
+system level: props/condsys.py (generated lighttpd.conf on the real server: parser, evaluator, per-request patching, mod_extforward reset)."""
 import os, re
 import vlib
 from vlib import hx, unhx
@@ -177,6 +178,9 @@ def run(ctx):
                        "language reference, plus partially-valid attribute sets compared with the model; non-trivial = some block applied")
     found = vlib.judge(ctx, "C14", "cond", allc, out_i, out_m, dis, monitor, describe, "cond_h", "Cond.CondModel.check_cond/reset_item vs configfile-glue.c")
     ctx.add_samples([dict(case=describe(c)[:500], impl=o) for c, o in list(zip(allc, out_i))[:: max(1, len(allc) // 4)]][:4])
+    # system level: the real parser, evaluator and per-request patching on a running server (props/condsys.py)
+    import sys, condsys
+    found = bool(condsys.run_system(ctx, sys.modules[__name__])) or found
     if not ok and not found:
         ctx.proof_broken_violation()
 
@@ -184,6 +188,11 @@ def run(ctx):
 def replay(ctx, path):
     import json, shutil
     obj = json.load(open(path))
+    if obj["replay"].get("kind") == "condsys":
+        print("configuration:\n" + obj["replay"].get("conf", "")); print("requests:", obj["replay"].get("requests")); print("failing request:", obj["replay"].get("failing"))
+        print("observed:", obj["replay"].get("observed"), "language:", obj["replay"].get("expected"), "model:", obj["replay"].get("model"))
+        print("(re-run ./check C14 with the same VERIF_SEED to reproduce against the current tree)")
+        return 1
     case = obj["replay"].get("case")
     exe = vlib.cc_harness(ctx, "cond_h", link_srcs=LINK)
     model = vlib.model_driver("C14")
